@@ -36,10 +36,6 @@ def check_strict_verify(v, r, what='verify'):
                         sig='%s:%s' % (r[0], r[1] if r[0] != 'ok' else r[1])))
         return out, None
     if r[0] == 'ok':
-        if k == 'CHAIN' and v.chain and all(c in getattr(v, 'partial', ()) for c in v.chain):
-            # the statement accepts a sub-Manifest that matched the entry of AN accepted parent; gemato additionally
-            # compares a second parent's entry only when both arrive in the same loading pass of one loader
-            return out, 'sub-manifest-matches-one-parent-entry-not-another'
         if r[1] is True or r[1] is None:
             out.append(viol('verify.false-success',
                             '%s: model says %s %s but gemato returned success' % (
